@@ -56,6 +56,9 @@ Inductive vstatus :=
 | VBadLabel (l : string)
 | VStuck (why : stuck).
 
+Definition vok (s : vstatus) : bool :=
+  match s with VReturned | VOutOfFuel => true | _ => false end.
+
 Definition combine_logic (o : logicop) (a b : bool) : bool :=
   match o with LAnd => andb a b | LOr => orb a b end.
 
@@ -595,15 +598,14 @@ Section Value.
       vfinish (vexec_stmts quirk fuel false (fn_body f) [param_frame (fn_params f) args])
     else ([], VStuck NoArgument).
 
-  (** ** The bounded comparison.  As [Spec/Exec.agree] (equal event lists when both runs
-      returned, one a prefix of the other when a fuel ran out), and both runs end well: neither
-      is stuck, falls off its end, or looks up a label that is not set. *)
+  (** ** The bounded comparison: as [Spec/Exec.agree] (equal event lists when both runs
+      returned; otherwise - a fuel ran out - one a prefix of the other), and the statuses with
+      which a run ends well: it is not stuck, did not fall off its end, did not look up a label
+      that is not set (the counterpart of [Spec/Exec.flat_ok]). *)
   Definition vagree (t1 t2 : vtrace) : bool :=
     match snd t1, snd t2 with
     | VReturned, VReturned => vevents_eqb (fst t1) (fst t2)
-    | VReturned, VOutOfFuel | VOutOfFuel, VReturned | VOutOfFuel, VOutOfFuel =>
-        vprefixb (fst t1) (fst t2) || vprefixb (fst t2) (fst t1)
-    | _, _ => false
+    | _, _ => vprefixb (fst t1) (fst t2) || vprefixb (fst t2) (fst t1)
     end.
 End Value.
 
@@ -628,7 +630,7 @@ Inductive term :=
 | TOp (o : binop) (l r : term)
 | TField (t : term) (a : string)
 | TExt (tag : N)
-| TConst (x : string)
+| TCst (x : string)
 | TCall (f : string) (args : list term)
 | TArg (k : N).
 
@@ -642,7 +644,7 @@ Fixpoint term_eqb (a b : term) : bool :=
       String.eqb (binop_name o) (binop_name o') && term_eqb l l' && term_eqb r r'
   | TField t x, TField t' x' => term_eqb t t' && String.eqb x x'
   | TExt n, TExt m => N.eqb n m
-  | TConst x, TConst y => String.eqb x y
+  | TCst x, TCst y => String.eqb x y
   | TCall f xs, TCall g ys =>
       String.eqb f g &&
       (fix go (xs ys : list term) : bool :=
@@ -670,7 +672,7 @@ Fixpoint hash_term (t : term) : N :=
       (13 + 17 * hash_string (binop_name o) + 19 * hash_term l + 23 * hash_term r) mod hash_mod
   | TField t a => (29 + 31 * hash_term t + 37 * hash_string a) mod hash_mod
   | TExt n => (41 + 43 * n) mod hash_mod
-  | TConst x => (47 + 53 * hash_string x) mod hash_mod
+  | TCst x => (47 + 53 * hash_string x) mod hash_mod
   | TCall f args =>
       (59 + 61 * hash_string f +
        (fix go (l : list term) : N :=
@@ -688,7 +690,7 @@ Definition free_interp (salt : N) : interp term :=
     TLit TOp
     (fun c a b => decide salt (89 * hash_string (cmpop_name c) + 97 * hash_term a + 101 * hash_term b))
     (fun a => decide salt (103 + 107 * hash_term a))
-    TField TExt TConst TCall term_eqb.
+    TField TExt TCst TCall term_eqb.
 
 (** the arguments of the free interpretation: [TArg 0; TArg 1; ...] *)
 Definition free_args (n : nat) : list term := map (fun k => TArg (N.of_nat k)) (seq 0 n).
